@@ -9,6 +9,7 @@ import (
 	"time"
 
 	"github.com/influxdata/influxdb/models"
+	"github.com/influxdata/influxdb/pkg/verifhook"
 	"github.com/influxdata/influxdb/tsdb"
 	"github.com/influxdata/influxql"
 	"go.uber.org/zap"
@@ -738,6 +739,9 @@ func (cl *CacheLoader) Load(cache *Cache) error {
 					cl.Logger.Info("File corrupt", zap.Error(err), zap.String("path", f.Name()), zap.Int64("pos", n))
 					if err := f.Truncate(n); err != nil {
 						return err
+					}
+					if verifhook.Enabled {
+						verifhook.Emit("wal.replay.truncated", f.Name(), n)
 					}
 					break
 				}
